@@ -124,10 +124,25 @@ Fixpoint ins_job (x : job) (l : list job) : list job :=
   end.
 Definition sort_jobs (l : list job) : list job := fold_right ins_job [] l.
 
+(* the keys of an association list, sorted, each once *)
+Fixpoint ins_key (x : Z) (l : list Z) : list Z :=
+  match l with
+  | [] => [x]
+  | y :: r => if x <? y then x :: l else if x =? y then l else y :: ins_key x r
+  end.
+Definition skeys {V} (m : list (Z * V)) : list Z := fold_right ins_key [] (map fst m).
+
+(* a Go map is shown as its non-zero / non-empty entries, sorted by key; the
+   model's association list denotes the map  k |-> act_get k / wl_get k *)
+Definition act_obs (m : list (Z * Z)) : list (Z * Z) :=
+  filter (fun e => negb (snd e =? 0)) (map (fun k => (k, act_get k m)) (skeys m)).
+Definition wp_obs (m : list (Z * list job)) : list (Z * Z) :=
+  filter (fun e => negb (snd e =? 0)) (map (fun k => (k, zlen (wl_get k m))) (skeys m)).
+
 Definition obs_of (s : lim) : lobs :=
   mkLobs (fdConsuming s) (zlen (waitingOnFd s)) (zlen (spawned s))
-         (sort_pairs (activePerPeer s))
-         (sort_pairs (map (fun e => (fst e, zlen (snd e))) (waitingOnPeer s)))
+         (act_obs (activePerPeer s))
+         (wp_obs (waitingOnPeer s))
          (sort_jobs (dialing s)).
 
 (* one harness stimulus: the method call, then every started goroutine runs
